@@ -321,4 +321,84 @@ def jailAllows (allowed : Option (List Bytes)) (url : Bytes) : Bool :=
   | none => true
   | some bases => bases.any (fun b => isChildUrl b url)
 
+/-! ### decidable shape predicates on URL paths -/
+
+/-- the string is exactly what `urlutils.escape` produces (escape ∘ decode is the
+identity on it): no escape of an unreserved character or of "/" (so no `%2E`,
+`%2F`, `%41`), hex digits upper-case, every "%" starts an escape -/
+def isCanon (p : Bytes) : Bool := escape (pctDecode p) == p
+
+/-- every "%" starts an upper-case escape of a byte outside `A-Za-z0-9-._~/`;
+all other bytes are arbitrary (space, non-ASCII, ...).  This is what a home
+directory has to look like for `_expand_userdirs` to be harmless: in particular
+every path without a "%" qualifies. -/
+def isMild : Bytes → Bool
+  | [] => true
+  | [c] => c != PCT
+  | [c, a] => c != PCT && a != PCT
+  | c :: a :: b :: r =>
+    if c = PCT then
+      match hexV a, hexV b with
+      | some x, some y =>
+        a == hexU x && b == hexU y && !isSafe (UInt8.ofNat (16 * x + y)) && isMild r
+      | _, _ => false
+    else isMild (a :: b :: r)
+
+/-- a URL path (or a relpath used below it) in normal form: canonical escaping
+and no ".." segment.  "." and empty segments are allowed (they are harmless). -/
+def normalisedUrl (p : Bytes) : Bool := isCanon p && (splitSl p).all (fun s => s != dotdot)
+
+/-! ### a transport built from a URL (`get_transport_from_url(prefix ++ p)`)
+
+Unlike a transport reached by `clone`, a Chroot/PathFiltering transport built
+from a URL keeps the path AS WRITTEN for its operations, while its `.base` —
+the string the jail looks at — has the dot segments resolved.  (Specified from
+observation of compiled dromedary; compared per case, op `jurl`.) -/
+
+def dotLike (s : Seg) : Bool := normPct s == dotSeg || normPct s == dotdot
+
+/-- one segment of `.base`: compared after percent-normalisation, kept as written;
+empty segments are kept -/
+def baseStep (stk : List Seg) (seg : Seg) : List Seg :=
+  if normPct seg = dotSeg then stk
+  else if normPct seg = dotdot then stk.drop 1
+  else seg :: stk
+
+/-- path part of `get_transport_from_url(prefix ++ p).base` -/
+def urlBase (p : Bytes) : Bytes :=
+  let segs := splitSl p
+  let segs := match segs.getLast? with
+    | some l => if dotLike l then segs ++ [[]] else segs
+    | none => segs
+  let r := joinSl (segs.foldl baseStep []).reverse
+  if r = [] then [] else withSlash r
+
+/-- the path handed downwards for an operation on `rel` (a normal-form relpath):
+the URL path as written, a "/", the relpath -/
+def rawJoin (p rel : Bytes) : Bytes := if p = [] then rel else withSlash p ++ rel
+
+/-- the relpath that reaches the local transport for an operation on `rel`
+issued on the transport built from the URL `prefix ++ p`: the layer the URL
+belongs to does not normalise; with a userdir filter installed the filter sees
+the raw path and the chroot layer below it normalises once -/
+def urlBackingRel (cfg : Cfg) (p rel : Bytes) : Bytes :=
+  match cfg.basePath with
+  | none => rawJoin p rel
+  | some _ => stkPath (combine [] (cfg.filter (rawJoin p rel)))
+
+/-- absolute location an operation on `rel` through the transport built from
+the URL `prefix ++ p` finally touches -/
+def urlLocate (cfg : Cfg) (p rel : Bytes) : Except Err (List Seg) :=
+  match osRel (urlBackingRel cfg p rel) with
+  | .error e => .error e
+  | .ok u => .ok (osResolve cfg.rootDir u)
+
+/-- a segment of a jail root reached by cloning the backing transport: canonical
+escaping, no "/", not empty, not "." / ".." (clone drops / resolves those) -/
+def goodJailSeg (s : Seg) : Bool :=
+  isCanon s && !(s.contains SL) && decide (s ≠ [] ∧ s ≠ dotSeg) && s != dotdot
+
+/-- path part of the `.base` of a transport reached by cloning: `a/b/` ("" for the root) -/
+def cloneBase (stk : List Seg) : Bytes := if stk = [] then [] else stkPath stk ++ [SL]
+
 end BreezyVerif.C31
